@@ -277,18 +277,17 @@ func (t *collationSortedTree[K, V]) Prefix(p K) iter.Seq2[K, V] {
 		return t.All()
 	}
 
-	keyS, colKey := t.cok.Transform(p)
+	keyS, _ := t.cok.Transform(p)
 
-	root := t.root
-	if t.root.pointer != nil {
-		root = lowestCommonParent[V, *collateLeafNode[V]](root, colKey)
-	}
-
+	// The collation key of p is not a prefix of the collation keys of the
+	// strings starting with p (it continues with the secondary and tertiary
+	// levels of p itself), so no subtree can be selected from it: filter the
+	// whole tree on the original strings.
 	hasPrefix := func(k K, v V) bool {
 		leafKeyS := []byte(string(k))
 		return bytes.HasPrefix(leafKeyS, keyS)
 	}
-	return filter(root, hasPrefix, t.restoreKey)
+	return filter(t.root, hasPrefix, t.restoreKey)
 }
 
 func (t *collationSortedTree[K, V]) Range(start, end K) iter.Seq2[K, V] {
